@@ -357,6 +357,21 @@ def run(ctx):
             allow = bool(rng.random() < 0.5)
         if any(g[0] == "swap" for g in log):
             ctx.bucket("swap_gate")
+        if rng.random() < 0.06:
+            # a user-defined gate that merely carries the *name* of a supported gate but does something else: the converter
+            # must convert what the circuit does (qiskit knows its unitary) or refuse - never go by the name
+            from qiskit import QuantumCircuit as _QC
+            nm_, nq_ = [("h", 1), ("x", 1), ("z", 1), ("swap", 2), ("cx", 2), ("cz", 2)][int(rng.integers(6))]
+            body = _QC(nq_, name=nm_)
+            if nq_ == 1:
+                getattr(body, str(rng.choice([g_ for g_ in ("x", "h", "s", "y") if g_ != nm_])))(0)
+            else:
+                getattr(body, str(rng.choice([g_ for g_ in ("cx", "cz", "swap") if g_ != nm_])))(0, 1)
+            if n >= nq_:
+                qs_ = [int(x) for x in rng.choice(n, size=nq_, replace=False)]
+                qc.append(body.to_gate(), qs_)
+                log.append(["custom gate named " + nm_] + qs_)
+                ctx.bucket("custom_gate_named_like_a_supported_gate")
         qc, presented = presentation(qc, rng)
         ctx.bucket("qiskit_circuit_presented_as:" + presented.split(" ")[0])
         if FORMS[0]:
